@@ -32,7 +32,7 @@ def main(run):
                 "labels, differences and '.', constants, .repeat, .include) assembled at bases 0o1000 0o40000 0o157776 0o177776; "
                 "non-trivial = accepted program with at least one instruction and at least one absolute address word (a word whose "
                 "predicted value moves with the base); distinct by abstract program")
-    opts = {"harness_link": True, "check_syms": False}
+    opts = {"harness_link": True, "check_syms": False, "mid_link": True}      # harness '.link' at the start, at the end, and in the middle of the text
     tasks, inc = explore_replay(run, "RelocAlphabet", "RelocIncFiles", 3, 1, BASES if thorough else [512, 57342, 65534], opts, nontrivial,
                                 keep=40000, label="AsmCore relocation, all programs of <= 3 statements")
     t4, _ = explore_replay(run, "RelocCoreAlphabet", "RelocIncFiles", 5 if thorough else 4, 1, BASES, opts, nontrivial, keep=40000,
@@ -40,7 +40,7 @@ def main(run):
     tasks += t4
     recs2, inc2 = explore(run, "RelocAlphabet", "RelocIncFiles", 7, 2, BASES, simulate=(2000 if thorough else 200), depth=15,
                           seed=run.seed + 3, label="AsmCore relocation simulation (<= 7 stmts x 2 files)")
-    tasks2 = replay_all(run, recs2, inc2, {"harness_link": True, "check_syms": False}, nontrivial)
+    tasks2 = replay_all(run, recs2, inc2, opts, nontrivial)
     rnd = random.Random(run.seed + 37)
     progs = [generators.lazy_program(rnd, own_link=False) for _ in range(3000 if thorough else 300)]
     recs3, inc3 = explore_given(run, progs, "LayoutIncFiles", [512, 16384, 57342], label=f"AsmCore given: {len(progs)} generated lazy-engine programs")
